@@ -31,6 +31,9 @@ structure InField (F : Type) where
 structure InputDef (F : Type) where
   name : String
   fields : List (InField F)
+  /-- D85: an explicit null given for a field that has a default is replaced by the default (repaired: it stays
+  null, the default is for a field that is left out) -/
+  nullDflt : Bool := true
 
 /-- hand-set deviation flags of `replaceArgVars` (validated by the correspondence on every run) -/
 structure Cfg where
@@ -55,13 +58,13 @@ def setKey {α} (kvs : List (String × α)) (k : String) (v : α) : List (String
 def inTables (tin : Scalar → Table) := tin
 
 /-- one declared field of `Input.CoerceIn`: default / required / coerce; `co` coerces a field value -/
-def inputStep (co : InT → Val F → Val F × Bool) (acc : List (String × Val F) × Bool) (f : InField F) :
+def inputStep (nd : Bool) (co : InT → Val F → Val F × Bool) (acc : List (String × Val F) × Bool) (f : InField F) :
     List (String × Val F) × Bool :=
   if acc.2 then acc else
   match lookup acc.1 f.name with
   | some ov =>
     if ov.isNil then
-      (match f.dflt with
+      (match (if nd then f.dflt else none) with
        | some dv => (setKey acc.1 f.name dv, false)
        | none => (match f.type with | .nonNull _ => (acc.1, true) | _ => (acc.1, false)))
     else
@@ -107,7 +110,7 @@ def coerceInT (ext : Ext F) (tin : Scalar → Table) (inputs : List (InputDef F)
             if kvs.any (fun p => !d.fields.any (fun f => f.name == p.1)) then (.go .nil, true)
             else
               -- every declared field: default / required / coerce
-              let (kvs', e) := d.fields.foldl (inputStep (coerceInT ext tin inputs fuel)) (kvs, false)
+              let (kvs', e) := d.fields.foldl (inputStep d.nullDflt (coerceInT ext tin inputs fuel)) (kvs, false)
               if e then (.go .nil, true) else (.obj kvs', false))
        | _ => (.go .nil, true))
 
